@@ -76,8 +76,8 @@ def run(ctx: Ctx):
                        "duplicated within and across tables (completeness_data and profile_columns treat tables as bags), registered BY NAME on one "
                        "DatabaseAPI, their contents replaced and the calls repeated; histogram target bins in {3..2000} also on thresholded "
                        "(narrow-range) predictions; 2 exact-match comparisons with optional term-frequency "
-                       "adjustment, 0-2 blocking rules, all link types, target bins in {3,5,10,30,100}; each case yields up to "
-                       "14 Coq-evaluated comparisons (3 tf tables, tf join, completeness per column, cvd, histogram, unlinkables, profile_columns per column: value frequencies / percentiles / top n / bottom n); "
+                       "adjustment, 0-2 blocking rules, all link types, target bins in {3,5,10,30,60,100,150,400,2000}; each case yields about "
+                       "20-25 Coq-evaluated comparisons (3 tf tables, tf join, completeness per column, cvd, histogram, unlinkables, profile_columns per column: value frequencies / percentiles / top n / bottom n); "
                        "non-trivial = has NULLs, >= 2 distinct gamma vectors and >= 2 listed unlinkable probabilities.")
     ctx.trusted += [
         "translators/c20_sql.py (sqlglot-normalised text of the five SQL snippets compared with the audited forms; syntactic)",
